@@ -110,6 +110,26 @@ func PlanFor(prop, tier string) (*Plan, error) {
 			return func() []Monitor { return []Monitor{f()} }
 		}()
 		p.Rule = "histories over 2-3 concurrent auctions sharing auctioneer, bidders and (crossed) denominations, failed operations included: around every transition the raw records, bids, allow-list, instalments, counters and three escrow balances of every auction that is neither the target nor due for a lifecycle step must be byte-identical; agreed terms of every auction are compared before/after every transition; ids follow the counters; a table shared by the whole run maps (projection of X, actor balances, params, time, op) to the outcome and flags two different outcomes under one key; non-trivial = distinct frame cases and distinct table keys seen with different contents of the other auctions"
+	case "C16":
+		p.Scenarios = []*Scenario{S2b(tier, 2, false).tagged("noqueries"), S1b(tier, "3", true), S3(tier, false), S5(tier, []string{"0.5", "0.5"}, "n2-halves"), S2c(tier, "0.25", 1).tagged("noqueries"), S2b(tier, 0, true)}
+		if !quick {
+			p.Scenarios = append(p.Scenarios, S2b(tier, 1, true), S2a(tier, false), S3x(tier), S2b(tier, 2, true))
+		}
+		p.Monitors = func() []Monitor { return []Monitor{NewC16(true)} }
+		p.Rule = "batch auctions through extended rounds (provisional winners outbid later), fixed-price bids converting to zero coins, vesting, and a multi-auction scenario: at every settlement each bid's is_matched flag is compared with its contribution to what its bidder received and the published matched price with the clearing price; released flags with payments; in every distinct module state the whole query alphabet (by-id for every existing and a missing key; ListAuction x status x type; ListBid x auction x bidder x is_matched; ListAllowedBidder / ListVestingQueue x auction; each unlimited + count, offset, and page size 1 with key continuation) is compared with a reference filter over the raw store dump; non-trivial = distinct settlements and distinct queried states"
+	case "C15":
+		lite := Budget{"bid": 2, "allow": 2, "update": 0, "mod": 1, "block": 3, "tick": 0, "cancel": 1}
+		p.Scenarios = []*Scenario{
+			S3(tier, false).withBudget(Budget{"bid": 2, "mod": 1, "block": 3, "update": 0, "create": 1, "cancel": 1}, "-lite"),
+			S2e(tier).withBudget(Budget{"bid": 2, "mod": 0, "block": 4, "update": 0}, "-lite"),
+			S1a(tier, true).withBudget(lite, "-lite"),
+		}
+		if !quick {
+			p.Scenarios = []*Scenario{S3(tier, false), S2e(tier), S1a(tier, true), S2a(tier, false), S3x(tier)}
+		}
+		deep := !quick
+		p.Monitors = func() []Monitor { return []Monitor{NewC15(deep)} }
+		p.Rule = "at every distinct module state of the multi-auction, early-release batch and fixed lifecycle scenarios: ExportGenesis -> JSON -> Validate; wipe the module store on a branch and InitGenesis; compare auctions, bids, allow-lists, instalments, counters and params byte by byte; then run original and re-imported branch in lock-step over every single op of the scenario menu, every pair (thorough: triple) of later block instants and bid-then-block sequences, comparing decisions, the seven collections and balances after every step; non-trivial = distinct exported states holding at least one auction"
 	case "C07":
 		p.Scenarios = []*Scenario{S3(tier, false), S1a(tier, true), S2a(tier, false)}
 		if !quick {
